@@ -323,6 +323,7 @@ Fixpoint mrun (c : cfg) (ms : list mstep) (s : state) : option state :=
 Inductive oev :=
 | OClaim (t : nat) (inplace : bool) (hm : nat) (od : bool) (p : option plan) (snap : list rec)
 | OPatched (t : nat) (res : list (N * N))   (* PatchExpired finished its patches: (key, status) *)
+| OReidx (t : nat) (ks : list N)            (* PatchExpired t ran its final re-index over its selection ks *)
 | OPut (k : N)                              (* a writer created or re-scheduled key k *)
 | ODel (k : N).                             (* a writer's Delete of k succeeded *)
 
@@ -339,23 +340,31 @@ Fixpoint nodupN (l : list N) : bool :=
    flight; dead: keys deleted by a writer and not re-put since.
    codes: 12 same key to two claimers; 13 claimed record did not satisfy the criteria at claim
    time; 14 a deleted key was returned / patched; 15 a deleted key is present at the end;
-   16 more than HowMany or not in index order *)
-Fixpoint oracle (taken : list N) (fl : list (nat * N)) (dead : list N) (evs : list oev) (final : list N) : N :=
+   16 more than HowMany or not in index order; 17 see below *)
+Fixpoint oracle (taken : list N) (fl : list (nat * N)) (dead ri : list N) (evs : list oev) (final : list N) : N :=
   match evs with
   | [] => if existsb (fun k => memN k final) dead then 15%N else 0%N
   | OClaim t inplace hm od p snap :: r =>
       let keys := map rk snap in
-      if negb (nodupN keys) || existsb (fun k => memN k taken || existsb (fun q => N.eqb (snd q) k) fl) keys then 12%N
+      let dup k := memN k taken || existsb (fun q => N.eqb (snd q) k) fl in
+      if negb (nodupN keys) || existsb dup keys then
+        (* 17: the key was put back into the index by another PatchExpired's final re-index while
+           this in-place claim was in flight (recorded open finding); 12: any other double claim *)
+        (if forallb (fun k => negb (dup k) || memN k ri) keys && nodupN keys then 17%N else 12%N)
       else if negb (forallb (crit od p) snap) then 13%N
       else if existsb (fun k => memN k dead) keys then 14%N
       else if Nat.ltb hm (length snap) || negb (sorted_exp snap) then 16%N
-      else if inplace then oracle taken (fl ++ map (fun k => (t, k)) keys) dead r final
-      else oracle (taken ++ keys) fl dead r final
+      else if inplace then oracle taken (fl ++ map (fun k => (t, k)) keys) dead ri r final
+      else oracle (taken ++ keys) fl dead ri r final
   | OPatched t res :: r =>
       if existsb (fun q => N.eqb (snd q) 0 && memN (fst q) dead) res then 14%N
-      else oracle taken (filter (fun q => negb (Nat.eqb (fst q) t)) fl) dead r final
-  | OPut k :: r => oracle (rem k taken) (filter (fun q => negb (N.eqb (snd q) k)) fl) (rem k dead) r final
-  | ODel k :: r => oracle taken fl (k :: dead) r final
+      else oracle taken (filter (fun q => negb (Nat.eqb (fst q) t)) fl) dead ri r final
+  | OReidx t ks :: r =>
+      (* keys of t's selection that are in flight with ANOTHER in-place claimer right now *)
+      let hit := filter (fun k => existsb (fun q => N.eqb (snd q) k && negb (Nat.eqb (fst q) t)) fl) ks in
+      oracle taken fl dead (ri ++ hit) r final
+  | OPut k :: r => oracle (rem k taken) (filter (fun q => negb (N.eqb (snd q) k)) fl) (rem k dead) (rem k ri) r final
+  | ODel k :: r => oracle taken fl (k :: dead) ri r final
   end.
 
 (* ---- a case ---------------------------------------------------------------------------------- *)
@@ -381,7 +390,7 @@ Definition final_of (s : state) : list (N * N) :=
    in the model; 5 the model's own monitors fired on the replay (cannot happen: theorem);
    12..16 oracle (see above) *)
 Definition check_case (x : case) : N :=
-  match oracle [] [] [] (c_events x) (map fst (c_final x)) with
+  match oracle [] [] [] [] (c_events x) (map fst (c_final x)) with
   | 0%N =>
       if negb (c_replay x) then 0%N else
       match mrun cfg_now (c_sched x) (init (c_recs x) (c_progs x)) with
